@@ -74,6 +74,7 @@ type Contract struct {
 	Sites     map[string][]*SiteAnn
 	Assumed   []string             // free-text assumptions made by this contract (listed in evidence)
 	NoNilFn   bool                 // function values called in the body are assumed non-nil (recorded in Assumed)
+	ReturnSets []*SiteAnn          // ghost assignments at the normal exit
 	FrameOnly []string             // with NoFrame: structs whose fields are nevertheless frame-checked
 	FrameTags []string
 	NoFrame   bool                 // the modifies clause is used at call sites but not checked against the body
@@ -375,6 +376,19 @@ func (ss *SpecSet) parseFile(path string, dep bool) error {
 			case "captures":
 				tags, body := parseTags(rest)
 				cur.Captures = &Clause{Kind: "captures", Tags: tags, Src: body, Line: ln + 1, File: path}
+			case "on-return":
+				// on-return set <ghost> = <expr>: ghost assignment at the function's normal exit, before its postconditions
+				// are checked (the expression may use now(local)); skipped on exits where the expression is not defined
+				f := strings.SplitN(rest, " ", 2)
+				if len(f) != 2 || f[0] != "set" || !strings.Contains(f[1], "=") {
+					return fmt.Errorf("%s:%d: on-return set <ghost> = <expr>", path, ln+1)
+				}
+				eq := strings.Index(f[1], "=")
+				c, err := mkClause("on-return", strings.TrimSpace(f[1][eq+1:]))
+				if err != nil {
+					return err
+				}
+				cur.ReturnSets = append(cur.ReturnSets, &SiteAnn{Kind: "set", Ghost: strings.TrimSpace(f[1][:eq]), Cl: c})
 			case "after-store":
 				f := strings.SplitN(rest, " ", 3)
 				if len(f) < 3 || f[1] != "assert" {
@@ -597,6 +611,9 @@ func (c *Contract) hasTag(tag string) bool {
 		}
 	}
 	if c.Captures != nil && clauseHasTag(c.Captures, tag) {
+		return true
+	}
+	if len(c.FrameOnly) > 0 && contains(c.FrameTags, tag) {
 		return true
 	}
 	return false
